@@ -28,15 +28,21 @@ ASSUMPTIONS = [
     "the peer's frames are well-formed (a flow's channel only ever carries DATA/EOF/STOP_SENDING)",
 ]
 MANIFEST = dict(
-    level_text=("Lean 4 theorems over the tunnel model: a Proxy.callback never raises for any recv/send/shutdown fault and "
-                "any connect errno of the handled set (C08_callback_total); a step of one flow changes no other flow and "
-                "queues only frames of its own channel (C08_frame); therefore the C01 prefix and conservation invariants of "
-                "every other flow hold under arbitrary fault schedules (C08_others_unaffected, a corollary of C01_prefix "
-                "whose step relation already contains every fault); an error on a socket shuts it in both directions "
-                "(C08_error_shuts_socket). Replayed against the real classes with fault injection on every run; "
-                "exhaustion / late-frame / server proxy faults are driven on the real client and server functions."),
-    level_note=("Trusted: as C01. 'Eventually torn down' for the faulty flow is checked by the fair-drain oracle on the real "
-                "code. Defects found and repaired: F2 (7d459d6), F3 (540f989), F4 (0da7bbb); see known_findings/C08.json."),
+    level_text=("Lean 4 theorems over the tunnel model, whose step alphabet contains every fault (any connect errno, recv "
+                "error, send error/EPIPE, failing shutdown, frames for closed flows, id exhaustion): a Proxy.callback ends "
+                "the process exactly when a pending connect fails with an errno outside the handled set "
+                "(C08_callback_dies_iff, C08_callback_total); a failed connect / a receive error leaves the wrapper shut "
+                "both ways and the local socket shut down (C08_connect_error_closes, C08_recv_error_closes); in every "
+                "reachable state of every schedule, with no hypothesis at all, a recorded error means wrapper closed and "
+                "socket shut down, and ok=False means finished and unregistered (C08_error_means_closed); a callback of "
+                "one flow changes no other flow's record and queues only frames of its own channel (C08_step_frame); every "
+                "other flow keeps C01's prefix guarantee under arbitrary fault schedules (C08_neighbours_safe); the "
+                "complete list of steps that can end a process (C08_death_causes: unknown connect errno, CONNECT for a live "
+                "id, non-stream frame on a TCP channel - nothing else). Replayed against the real classes with fault "
+                "injection on every run; exhaustion / late-frame / server UDP and DNS proxy faults are driven on the real "
+                "client and server functions."),
+    level_note=("Trusted: as C01. UDP/DNS flows are outside the Lean model: their containment is decided on the real code "
+                "only. 'Eventually torn down' for the faulty flow is checked by the fair-drain oracle on the real code. Defects found and repaired: F2 (7d459d6), F3 (540f989), F4 (0da7bbb); see known_findings/C08.json."),
     technique="Lean 4 proof (totality + frame lemma + C01 invariant under faults) + fault-injection replay on the real classes",
 )
 
